@@ -46,6 +46,12 @@ func init() {
 		Explanation: "wip"}
 	props["C13"] = &PropSpec{ID: "C13", Engines: []string{"UNSAT"}, Rules: []string{"UNSAT"},
 		Explanation: "wip"}
+	props["C15"] = &PropSpec{ID: "C15", Engines: []string{"BUILD", "PANIC", "OPTS", "SHARED"}, Rules: []string{"BUILD", "VSET", "PACK", "TAGS", "SHARED-C", "STRUCTWALK"},
+		Explanation: "wip"}
+	props["C02"] = &PropSpec{ID: "C02", Engines: []string{"ERRFLOW", "UNSAT", "TERM"}, Rules: []string{"ERRFLOW-E2", "ERRFLOW-E3", "ERRFLOW-E5", "UNSAT-U1", "UNSAT-U2", "UNSAT-U3", "UNSAT-U7", "TERM-W1", "TERM-W2", "TERM-W3"},
+		Explanation: "wip"}
+	props["C05"] = &PropSpec{ID: "C05", Engines: []string{"EDGE", "UNSAT", "PRIO", "ERRFLOW", "TERM"}, Rules: []string{"EDGE-K", "UNSAT-U3", "PRIO-P", "ERRFLOW-E3", "TERM-W3", "TERM-W1", "TERM-W2"},
+		Explanation: "wip"}
 	props["C16"] = &PropSpec{ID: "C16", Engines: []string{"OPTS"}, Rules: []string{"LOWER", "OPTORDER", "NILOPT", "REFLVALID"},
 		Explanation: "wip"}
 	props["C14"] = &PropSpec{ID: "C14", Engines: []string{"OPTS", "ERRPRED"}, Rules: []string{"LOWER", "ERRPRED", "REFLVALID", "TAGS", "REJECT", "STRUCTWALK"},
